@@ -32,6 +32,7 @@ type prov struct {
 	binds   []map[*ssa.Parameter][]string // parameter bindings of inlined calls (stack)
 	fvBinds []map[*ssa.FreeVar][]string
 	inl     []*ssa.Function
+	opaque  map[*ssa.Function]bool // module functions not to be inlined
 }
 
 func (p *prov) inlining(f *ssa.Function) bool {
@@ -49,7 +50,7 @@ type provKey struct {
 }
 
 func (c *Ctx) newProv() *prov {
-	return &prov{c: c, depth: c.depth, memo: map[provKey][]string{}, busy: map[provKey]bool{}}
+	return &prov{c: c, depth: c.depth, memo: map[provKey][]string{}, busy: map[provKey]bool{}, opaque: map[*ssa.Function]bool{}}
 }
 
 const maxOrigins = 24
@@ -478,7 +479,7 @@ func (p *prov) call(x *ssa.Call, d int) []string {
 	if callee == nil {
 		return []string{"dyncall(" + joinArgs(args) + ")"}
 	}
-	if c.InModule(callee) && callee.Blocks != nil && len(p.binds) < p.depth && !p.inlining(callee) && !hasLoop(callee) {
+	if c.InModule(callee) && callee.Blocks != nil && len(p.binds) < p.depth && !p.inlining(callee) && !hasLoop(callee) && !p.opaque[callee] {
 		// inline: return operands with parameters substituted
 		bind := map[*ssa.Parameter][]string{}
 		for i, prm := range callee.Params {
@@ -602,4 +603,14 @@ func hasLoop(f *ssa.Function) bool {
 	}
 	loopCache[f] = res
 	return res
+}
+
+// Opaque marks module functions whose calls are described as calls (not inlined).
+func (p *prov) Opaque(fns ...*ssa.Function) *prov {
+	for _, f := range fns {
+		if f != nil {
+			p.opaque[f] = true
+		}
+	}
+	return p
 }
